@@ -36,6 +36,36 @@ VALREPS = {
 }
 
 
+def _rules_table():
+    from edgegraph.structure import DirectedEdge, UnDirectedEdge
+    return {
+        0: {},
+        1: dict(mixed_links=True, cycles=False),
+        2: dict(edge_whitelist={Vertex: {Vertex: DirectedEdge}}, multipath=False, multiverse=True),
+        3: dict(edge_whitelist={Vertex: {Vertex: DirectedEdge, Universe: UnDirectedEdge}, Universe: {}},
+                mixed_links=True, cycles=True, multipath=True, multiverse=True),
+    }
+
+
+RULES = _rules_table()
+RULE_DEFAULTS = dict(edge_whitelist=None, mixed_links=False, cycles=True, multipath=True, multiverse=False)
+
+
+def rules_index(laws):
+    """read the rule attributes back through the public properties and look them up"""
+    ew = laws.edge_whitelist
+    got = dict(
+        edge_whitelist=None if ew is None else {k: dict(v) for k, v in ew.items()},
+        mixed_links=laws.mixed_links, cycles=laws.cycles, multipath=laws.multipath,
+        multiverse=laws.multiverse)
+    for r, kw in RULES.items():
+        want = dict(RULE_DEFAULTS)
+        want.update(kw)
+        if got == want and all(type(got[k]) is type(want[k]) for k in got):
+            return r
+    return 99
+
+
 def errname(exc):
     for k, v in ERRNAMES.items():
         if type(exc) is k:
@@ -185,7 +215,8 @@ class Real:
             ls.append("L%d:%s[%s]" % (i, LCLS_NAME[type(l)], ends))
         ws = []
         for i, w in enumerate(self.W):
-            ws.append("W%d:%s" % (i, "-" if w.applies_to is None else str(self.vname(w.applies_to))))
+            ws.append("W%d:%s:r%d" % (i, "-" if w.applies_to is None else str(self.vname(w.applies_to)),
+                                      rules_index(w)))
         return "obs " + "|".join(vs) + "#" + "|".join(ls) + "#" + "|".join(ws) + "#c=" + (
             "1" if Vertex.NEIGHBOR_CACHING else "0")
 
@@ -239,7 +270,10 @@ class Real:
                 self.reg_w(u.laws)
             return "ok V%d" % n
         if op == "lawset":
-            return "ok W%d" % self.reg_w(UniverseLaws())
+            r = int(toks[1]) if len(toks) > 1 else 0
+            import copy
+            kw = copy.deepcopy(RULES[r]) if False else dict(RULES[r])
+            return "ok W%d" % self.reg_w(UniverseLaws(**kw))
         if op == "edge":
             l = LCLS[toks[1]](self.pv(toks[2]), self.pv(toks[3]))
             return "ok L%d" % self.reg_l(l)
